@@ -59,8 +59,9 @@ Definition TRIGON_MAX := 45000.
 Definition trig_idx (a : Z) : Z := if (a <? TRIGON_MIN) || (a >=? TRIGON_MAX) then 0 else a.
 
 (* MSOP blocks per revolution: (uint16_t)(1 / (rps * BLOCK_DURATION)) in double arithmetic *)
-Definition blks_per_frame_of (d : desc) (rps : Z) : Z :=
-  (dy_trunc (dy_div_r 53 (dy_of_Z 1) (dy_mul_r 53 (dy_of_Z rps) (d_block_duration d)))) mod 65536.
+Definition blks_per_frame_bd (bd : dy) (rps : Z) : Z :=
+  (dy_trunc (dy_div_r 53 (dy_of_Z 1) (dy_mul_r 53 (dy_of_Z rps) bd))) mod 65536.
+Definition blks_per_frame_of (d : desc) (rps : Z) : Z := blks_per_frame_bd (d_block_duration d) rps.
 (* ... scaled by the return mode: doubled in dual-return mode, halved for 16-beam types in single-return mode *)
 Definition split_blks_of (d : desc) (dual : bool) (blks : Z) : Z :=
   if d_is16 d then (if dual then blks else blks / 2)
@@ -187,6 +188,9 @@ Definition cur_tab (d : desc) (s : dstate) : tab :=
                 if s_first_pkt s then d_tab_base d else if s_variant s =? 3 then d_tab_alt2 d else d_tab_alt1 d
   end.
 
+(* mech_const_param_.BLOCK_DURATION as the decoder holds it now *)
+Definition cur_bd (d : desc) (s : dstate) : dy := t_block_dur (cur_tab d s).
+
 (* ---------------------------------------------------------------- DIFOP *)
 Definition RS_ONE_ROUND := 36000.
 
@@ -194,9 +198,10 @@ Definition decode_difop_common (d : desc) (s : dstate) (b : bytes) : dstate :=
   let rpm := be16 b (d_off_difop_rpm d) in
   let rps0 := rpm / 60 in
   let rps := if rps0 =? 0 then 10 else rps0 in
-  let bd := d_block_duration d in
+  (* mech_const_param_.BLOCK_DURATION as it is now: a Bpearl v4 changed it at its first MSOP packet *)
+  let bd := cur_bd d s in
   (* (uint16_t)(1 / (rps * BLOCK_DURATION)) in double arithmetic *)
-  let blks := blks_per_frame_of d rps in
+  let blks := blks_per_frame_bd bd rps in
   (* (uint16_t)std::round(36000 * rps * BLOCK_DURATION) *)
   let azd := (dy_round_half_away (dy_mul_r 53 (dy_of_Z (RS_ONE_ROUND * rps)) bd)) mod 65536 in
   let fs := be16 b (d_off_difop_fov_start d) in let fe := be16 b (d_off_difop_fov_end d) in
